@@ -10,7 +10,7 @@ import z3
 from . import drv, vals, solve, validate
 from .cctypes import T
 from .interp import Interp, Unsupported, input_types, flat_elems, Arr, shape_of, shape_of_type
-from .common import pool_map
+from .common import pool_map, safe_analyze
 
 SPECS = {}
 
@@ -61,6 +61,7 @@ def rebuild_inputs(ints, ins):
     return [ex(v) for v in ins]
 
 
+@safe_analyze(lambda a: dict(id=a[0]["id"], status=None, queries=[], mism=[], cex=None, note="", secs=0.0, n_nodes=0, validated=0))
 def analyze(args):
     case, res, timeout_s = args
     out = dict(id=case["id"], status=None, queries=[], mism=[], cex=None, note="", secs=0.0,
